@@ -1319,6 +1319,36 @@ def run(chk):
             continue
         terms.append(f"CEqual {expr_c(a)} {expr_c(b)} {cbool(ob)}")
         meta.append({"kind": "is_equal", "a": repr(a)[:600], "b": repr(b)[:600], "observed": ob})
+    # is_equal on constants, lists and dicts that differ in type only, in one element, in key order ...
+    pool = [("none",), ("bool", True), ("bool", False), ("int", 1), ("int", 0), ("int", -1), ("float", False, 1.0), ("float", False, 0.0),
+            ("float", True, 0.0), ("float", False, 2.5), ("str", "u"), ("str", "1"), ("inf", False)]
+    for _ in range(120 if tier == "quick" else 1500):
+        kind = rng.random()
+        if kind < 0.35:
+            a, b = ("val", rng.choice(pool)), ("val", rng.choice(pool))
+        elif kind < 0.7:
+            la = [rng.choice(pool[1:]) for _ in range(rng.randint(0, 3))]
+            lb = list(la) if rng.random() < 0.5 else [rng.choice(pool[1:]) for _ in range(rng.randint(0, 3))]
+            if lb and rng.random() < 0.5:
+                lb[rng.randrange(len(lb))] = rng.choice(pool[1:])
+            a, b = ("list", la), ("list", lb)
+        else:
+            keys = rng.sample([("int", 1), ("int", 2), ("str", "u"), ("float", False, 2.5), ("bool", False)], rng.randint(0, 3))
+            da = [(k, rng.choice(pool)) for k in keys]
+            db = list(da)
+            rng.shuffle(db)
+            if db and rng.random() < 0.5:
+                i = rng.randrange(len(db))
+                db[i] = (db[i][0] if rng.random() < 0.6 else rng.choice([("int", 3), ("float", False, 1.0), ("bool", True)]), rng.choice(pool))
+            if len({py_of_pval(k) for k, _ in db}) != len(db) or len({py_of_pval(k) for k, _ in da}) != len(da):
+                continue
+            a, b = ("dict", da), ("dict", db)
+        try:
+            ob = bool(term_of_expr(a).is_equal(term_of_expr(b)))
+        except Exception:
+            continue
+        terms.append(f"CEqual {expr_c(a)} {expr_c(b)} {cbool(ob)}")
+        meta.append({"kind": "is_equal", "a": repr(a)[:600], "b": repr(b)[:600], "observed": ob})
     pre = ("From Coq Require Import List ZArith NArith QArith Bool String.\nImport ListNotations.\n"
            "From DA Require Import Base.Cases Model.PyExpr Model.ExprPrint Model.ExprParse Model.ExprSem Model.ExprParseCases.\n"
            "Local Close Scope Q_scope.\nLocal Open Scope string_scope.\nLocal Open Scope list_scope.\n"
